@@ -82,6 +82,6 @@ class ExactMarginalLogLikelihood(MarginalLogLikelihood):
         res = output.log_prob(target)
         res = self._add_other_terms(res, params)
 
-        # Scale by the amount of data we have
-        num_data = function_dist.event_shape.numel()
+        # Scale by the amount of data we have (only the observed values if NaNs were masked out)
+        num_data = output.event_shape.numel()
         return res.div_(num_data)
